@@ -129,6 +129,9 @@ def src_loop(loop):
     """the loop over the recorded sources in its spellings -> (name of the dict, {local name: descriptor})
        for d in range(len(S)) [list(S.keys())[d] is read by special_factory]  |  for k in S / S.keys()  |  for k, v in S.items()"""
     it = loop.iter
+    # list(S) / list(S.keys()) / tuple(..) / sorted is NOT the same order: only order-keeping copies of the key view are the key view
+    while isinstance(it, ast.Call) and isinstance(it.func, ast.Name) and it.func.id in ("list", "tuple") and len(it.args) == 1 and not it.keywords:
+        it = it.args[0]
     if isinstance(it, ast.Call) and ast.unparse(it.func) == "range" and len(it.args) == 1 and isinstance(it.args[0], ast.Call) and ast.unparse(it.args[0].func) == "len" \
             and isinstance(it.args[0].args[0], ast.Name):
         return it.args[0].args[0].id, {}
@@ -423,6 +426,10 @@ def summary_rows(model, rep, r, an):
             base = [a for a in aps if not [c for c in a[0] if c[0] in ("if", "ifnot")]]
             cond = [a for a in aps if [c for c in a[0] if c[0] in ("if", "ifnot")]]
             n_eff = len(base) + (1 if cond else 0)
+            # a column that is only put into the table under a switch gets its cells under the same switch, in every block
+            sw = {an.get("chan_cond", {}).get(h) for h, v in an["chan"].items() if v == ch}
+            if not base and len(cond) == 1 and len(sw) == 1 and None not in sw and cond[0][0] == (("if", next(iter(sw))),):
+                continue
             if n_eff != 1 or (cond and len(cond) != 2):
                 ok = False
                 rep.violation("R2", "system.System.solve", "%s:%d" % (rel, sl.lineno if label == "Subsystem" else between[-1].lineno),
